@@ -40,6 +40,10 @@ let parse_op line =
   | ["findall"; t; r; d] -> Some (OFindall (zi t, zi r, zi d))
   | ["dump"] -> Some ODump
   | ["eof"] -> Some ODump            (* does not change M or S; judged separately (eof_line) *)
+  | ["aopen"; _; _] -> Some ODump    (* a read access element: no effect on the directory; result not judged *)
+  | ["aend"] -> Some ODump
+  | ["awrite"; t; r; l] -> Some (OPut (zi t, zi r, zi l))   (* Hstartwrite+Hwrite: the directory effect of Hputelement *)
+  | ["tryclose"] -> if rhs = "refused" then Some ODump else Some OReopen
   | _ -> None
 
 let triple ((t, r), l) = Printf.sprintf "%d/%d/%d" (int_of_z t) (int_of_z r) (int_of_z l)
@@ -94,6 +98,10 @@ let run_dd lines =
     | l :: ls', m :: ms', s :: ss' ->
       (match eof_line l with
        | Some txt -> print_string (txt ^ "\n")
+       | None when (match words l with ("aopen" | "aend") :: _ -> true | _ -> false) ->
+         print_string "M any ; S any\n"
+       | None when (match words l, m with "tryclose" :: _, RDump _ -> true | _ -> false) ->
+         print_string "M refused ; S refused\n"
        | None -> print_string ("M " ^ show m ^ " ; S " ^ show s ^ "\n"));
       go ls' ms' ss'
     | _ -> () in
